@@ -20,8 +20,7 @@ RULE = ("case = (n, interval out of 10 incl. reversed / tiny / large / half- and
         "extracted from the real call (k-th evaluation answers e_k) for the interval, the swapped interval and two "
         "adjacent sub-intervals, then a smooth integrand of the case's output kind is integrated; distinct = distinct "
         "observation hashes (call counts, shapes, rounded residual ratios)")
-RULE_ADDED = ('Added later: micro / offset intervals, nested quad calls, call-order plane in fresh interpreters. Ro'
-              'und 4: n in {129, 200, 257} in the quick tier.')
+RULE_ADDED = 'Added later: micro / offset intervals, nested quad calls, call-order plane in fresh interpreters. Round 4: n in {129, 200, 257} in the quick tier. Round 6: bck_options naming another number of nodes (forward rule unchanged).'
 ASSUMPTIONS = [
     "an evaluation whose abscissa equals one of the limits exactly is the documented dtype probe, not a node "
     "(Gauss nodes lie strictly inside); its answer must carry zero weight",
